@@ -1,6 +1,7 @@
 package props
 
 import (
+	"errors"
 	"context"
 	"fmt"
 	"os"
@@ -33,13 +34,14 @@ var c20Endings = []string{
 	"context-expiry+Close", "context-expiry+CloseNow", "transport-eof+Close", "transport-eof+CloseNow", "transport-reset+CloseNow",
 	"context-expiry+CloseNow/slow-transport-close", "closeread-context-expiry+CloseNow/slow-transport-close", "protocol-error+Close/slow-transport-close",
 	"Close-silent-peer", "concurrent-Close+CloseNow-slow-peer", "concurrent-Close+Close-slow-peer", "netconn-wrong-type+ncClose-slow-peer", "closeread-data+CloseNow",
+	"closeread-cancelled-while-closing+CloseNow/lingering-write", "closeread-closing+CloseNow/lingering-write+transport-close-error",
 }
 
 func init() {
 	fw.Register(&fw.Prop{
 		ID:    "C20",
 		Level: "exploration",
-		Rule: "cases = histories from an operation grammar (reads, writes, streamed writes, pings, CloseRead, NetConn with timers, abandoned half-read readers and unclosed writers, peer pings, cancelled reads) on either role, ended in 23 ways (Close / CloseNow / invalid Close arguments / repeated and concurrent closers against a slow peer / peer close, protocol error, context expiry, transport EOF or reset followed by Close or CloseNow / NetConn policy close). " +
+		Rule: "cases = histories from an operation grammar (reads, writes, streamed writes, pings, CloseRead, NetConn with timers, abandoned half-read readers and unclosed writers, peer pings, cancelled reads) on either role, ended in 25 ways (Close / CloseNow / invalid Close arguments / repeated and concurrent closers against a slow peer / peer close, protocol error, context expiry, transport EOF or reset followed by Close or CloseNow / NetConn policy close). " +
 			"Oracle: once the last Close/CloseNow has returned and the harness has joined its own goroutines, the goroutine profile must contain no goroutine with a frame in, or created by, nhooyr.io/websocket (300 ms grace for goroutines that are unwinding); histories run one at a time per process so a leak is attributed to its history, and the process-wide goroutine count is compared before and after each batch. distinct key = (role, ending, set of operation kinds)",
 		Gen:         c20Gen,
 		Race:        func(t string) bool { return t == "thorough" },
@@ -61,7 +63,7 @@ func c20Gen(tier string, seed int64) []fw.Case {
 	reps := tierPick(tier, 25, 250)
 	for rep := 0; rep < reps; rep++ {
 		for ei, ending := range c20Endings {
-			slow := strings.Contains(ending, "slow-peer") || ending == "Close-silent-peer" || strings.Contains(ending, "slow-transport-close")
+			slow := strings.Contains(ending, "slow-peer") || ending == "Close-silent-peer" || strings.Contains(ending, "slow-transport-close") || strings.Contains(ending, "lingering-write")
 			if slow && rep%tierPick(tier, 12, 40) != 0 {
 				continue
 			}
@@ -269,7 +271,7 @@ func c20Run(r *fw.R, d c20Desc) {
 		if canRead {
 			c.Read(ectx)
 		} else {
-			peer.AutoPong = false
+			peer.NoPong.Store(true)
 			c.Ping(ectx)
 		}
 		ec()
@@ -280,7 +282,7 @@ func c20Run(r *fw.R, d c20Desc) {
 		if canRead {
 			c.Read(ectx)
 		} else {
-			peer.AutoPong = false
+			peer.NoPong.Store(true)
 			c.Ping(ectx)
 		}
 		ec()
@@ -349,6 +351,30 @@ func c20Run(r *fw.R, d c20Desc) {
 		} else {
 			c.CloseNow()
 		}
+	case "closeread-cancelled-while-closing+CloseNow/lingering-write", "closeread-closing+CloseNow/lingering-write+transport-close-error":
+		// the CloseRead goroutine is writing its policy-violation Close frame to a peer that stopped reading;
+		// that write comes back only a while after the transport has been closed
+		cctx, cc := context.WithCancel(base)
+		if !closeRead && nc == nil {
+			c.CloseRead(cctx)
+			closeRead = true
+		}
+		if closeRead {
+			libEnd.Linger = 400 * time.Millisecond
+			if strings.Contains(d.Ending, "transport-close-error") {
+				libEnd.CloseErr = errors.New("xport: close notify could not be sent")
+			}
+			libEnd.StallWrites(true)
+			peer.Send(wire.Data(wire.OpText, true, []byte("unexpected")))
+			for i := 0; i < 2000 && libEnd.Stalled() == 0; i++ {
+				time.Sleep(time.Millisecond)
+			}
+			if libEnd.Stalled() > 0 {
+				r.Count("closers_called_while_library_goroutine_is_in_a_lingering_write", 1)
+			}
+		}
+		cc()
+		c.CloseNow()
 	case "closeread-data+CloseNow":
 		if !closeRead && nc == nil {
 			c.CloseRead(base)
